@@ -278,6 +278,19 @@ Definition world_after_start (oc : discovered -> outcome) (ds : list discovered)
                    rp_proc := match state_after_start o with Some s => s | None => PGone end |})
       (filter (fun p => launches (oc p)) ds).
 
+(* startPlugins in general.  The runtime's SyncFn is handed the closure syncPlugins and may or may not call it
+   (calls) and may or may not return an error (Start then fails as a whole).  attempt_world = all launched processes
+   when r.syncFn has returned and before the deferred function runs; rp_listed = element of the local slice `plugins`:
+   a plugin whose start failed never entered it (and was closed and stopped by plugin.start); the closure replaces
+   the slice by the plugins it synchronised and stops the others; when the closure never ran the slice still holds
+   every started plugin *)
+Definition attempt_world (calls : bool) (oc : discovered -> outcome) (ds : list discovered) : list rplugin :=
+  map (fun p => let o := oc p in
+                let kept := (starts o && (negb calls || syncs o))%bool in
+                {| rp_d := p; rp_listed := kept; rp_conn := kept; rp_closed := negb kept;
+                   rp_proc := if kept then PRunning else PGone |})
+      (filter (fun p => launches (oc p)) ds).
+
 (* r.plugins *)
 Definition r_plugins (w : list rplugin) : list rplugin := filter rp_listed w.
 
@@ -305,6 +318,15 @@ Definition event_step (p : rplugin) : rplugin :=
 (* stopPlugins: for _, p := range r.plugins { p.stop() }; r.plugins = nil — no test of p.closed *)
 Definition stop_step (p : rplugin) : rplugin := if rp_listed p then unlist (plugin_stop p) else p.
 Definition stop_plugins (w : list rplugin) : list rplugin := map stop_step w.
+
+(* startPlugins when r.syncFn returned an error: the deferred function, `for _, p := range plugins { p.stop() }`,
+   and r.plugins stays empty — the same loop as stopPlugins over the local slice *)
+Definition failed_start_world (calls : bool) (oc : discovered -> outcome) (ds : list discovered) : list rplugin :=
+  stop_plugins (attempt_world calls oc ds).
+
+(* all launched processes when Adaptation.Start has returned, whatever the SyncFn did *)
+Definition start_world (calls fails : bool) (oc : discovered -> outcome) (ds : list discovered) : list rplugin :=
+  if fails then failed_start_world calls oc ds else attempt_world calls oc ds.
 
 Inductive action :=
 | AConnLost (n : string) (exits : bool)      (* plugin n exits / closes its end *)
